@@ -65,7 +65,7 @@ def obsLine (s : State) (i : Nat) (logFrom : Nat) : String :=
   s!"size={q (toString s.size)} max={q (toString s.maxSize)} " ++
   s!"idle={q (showList (s.idle.map showObj))} out={showList ((sortNat (s.out.map Obj.id)).map toString)} " ++
   s!"live={showList (live.map toString)} woken={showList ((woken s).map toString)} " ++
-  s!"fault={if s.fault.isSome then 1 else 0} ev={";".intercalate evs}"
+  s!"fault={if s.fault.isSome then 1 else 0} debt={s.debt} ev={";".intercalate evs}"
 
 def parseTmo : String → Option Tmo
   | "n" => some .none
